@@ -43,7 +43,7 @@ type Case struct {
 
 func setup() {
 	c := ev.C()
-	c.Rule = "RIB contents reached through Modify (in-process streams; one case in four through a real grpc.Server over bufconn, so that every response is marshalled and parsed; one in three with the contents read back only after every 2nd-6th request) by model-aimed histories whose payloads populate every field the fluent builders can set (addresses, MAC, interface/subinterface, IP-in-IP, encap/decap header, encap-header list with MPLS stacks and UDPv6 fields, pushed/popped label stacks with duplicates, pop-top-label, next-hop NI, weights incl. 0, backup group, metadata, cross-NI group references); then every request in {DEFAULT,VRF-A,VRF-B,all,unknown} x {ALL,IPV4,IPV6,MPLS,NEXTHOP_GROUP,NEXTHOP}. Oracle: key set == model for the scope, payload proto.Equal (keyed lists canonicalised) to the last programmed payload, every entry tagged with its NI, Get(ALL) == disjoint union of per-table Gets, Get(all) == union of per-NI Gets, empty scope -> empty OK stream, unknown NI -> no entries, rib.FromGetResponses(...).RIBContents() == source contents. Non-trivial = >=3 distinct optional payload fields populated among installed entries and >=2 network instances non-empty; distinct by FNV-64 of the case JSON."
+	c.Rule = "RIB contents reached through Modify (in-process streams; one case in four through a real grpc.Server over bufconn, so that every response is marshalled and parsed; one in three with the contents read back only after every 2nd-6th request) by model-aimed histories whose payloads populate every field the fluent builders can set (addresses, MAC, interface/subinterface, IP-in-IP, encap/decap header, encap-header list with MPLS stacks and UDPv6 fields, pushed/popped label stacks with duplicates, pop-top-label, next-hop NI, weights incl. 0, backup group, metadata, cross-NI group references); then every request in {DEFAULT,VRF-A,VRF-B,all,unknown} x {ALL,IPV4,IPV6,MPLS,NEXTHOP_GROUP,NEXTHOP}. Oracle: key set == model for the scope, payload proto.Equal (keyed lists canonicalised) to the last programmed payload, every entry tagged with its NI, Get(ALL) == disjoint union of per-table Gets, Get(all) == union of per-NI Gets, empty scope -> empty OK stream, unknown NI -> no entries, rib.FromGetResponses(...).RIBContents() == source contents. Non-trivial = >=3 distinct optional payload fields populated among installed entries and >=2 network instances non-empty; distinct by FNV-64 of the case JSON. Later additions: many-instances scope (1-21 instances); slow-reader scope (one case per shard: a live reader taking 1-6 s, thorough 15 s, for one response); clock steps."
 	c.Assumptions = []string{"payloads are schema-valid; keyed proto lists are unordered (canonicalised by key), leaf-lists ordered"}
 }
 
